@@ -1,5 +1,5 @@
 (* C07 — split / move of vesting is exact and preserves the release schedule. *)
-From C4E Require Import Base Vest VestFrame VestProofs SolventProofs SendProofs AccountsProofs SplitArith SplitProofs.
+From C4E Require Import LaterTime Base Vest VestFrame VestProofs SolventProofs SendProofs AccountsProofs SplitArith SplitProofs.
 Open Scope Z_scope.
 
 (* (1) the arithmetic core, for EVERY original vesting, schedule, block time and requested amount
@@ -49,9 +49,8 @@ Print Assumptions C07_move_leaves_zero_locked.
 
 (* (4) release schedule: at the block of the split the two accounts together have vesting exactly
    what the sender had, and from the common end time on all three amounts are zero.  Between those
-   two instants the agreement "up to a few base units" is checked on the implementation at sampled
-   times on every run (predicate C07.later_time_agreement); the closed-form bound is not proved here. *)
-Theorem C07_schedule_endpoints_partial :
+   two instants the agreement "up to a few base units" is C07_later_time_agreement below. *)
+Theorem C07_schedule_endpoints :
   forall w from to c w' x,
   split_vesting_coins w from to c = Some w' -> aget from (w_acc w) = Some x ->
   (forall d, 0 <= camt d (a_ov x) /\ 0 <= camt d (a_dv x)) ->
@@ -60,7 +59,33 @@ Theorem C07_schedule_endpoints_partial :
     (forall t, a_end x <= t -> a_start x < t -> unix (w_now w) < t ->
        acct_vesting x' t d + acct_vesting y' t d = 0 /\ acct_vesting x t d = 0).
 Proof. exact split_total_vesting_at_now. Qed.
-Print Assumptions C07_schedule_endpoints_partial.
+Print Assumptions C07_schedule_endpoints.
+
+(* (4') ... and at every time in between: for a split of U (between 1 and the sender's vesting coins) at
+   time tau inside the schedule, at every later time t before the end, the vesting coins of the sender
+   (with the original vesting the code computes) plus those of the recipient (original vesting U, start
+   tau, same end) differ from what the unsplit sender would have had by at most
+   3 + OV * (3*10^18 + 1) / 10^36 base units: three units of rounding plus three times the resolution of
+   the SDK's 18-digit vesting scalar on the original vesting — for all magnitudes *)
+Theorem C07_later_time_agreement :
+  forall start end_ tau t OV U,
+  1 <= OV -> start < tau -> tau < t -> t < end_ -> 1 <= U <= vesting_amt start end_ tau OV ->
+  let OV' := unlock_ov start end_ tau OV U in
+  let X := vesting_amt start end_ t OV' + vesting_amt tau end_ t U - vesting_amt start end_ t OV in
+  - (3 * P * P + OV * (3 * P + 1)) <= P * P * X <= 3 * P * P + OV * (3 * P + 1).
+Proof. exact later_time_agreement. Qed.
+Print Assumptions C07_later_time_agreement.
+
+(* a split before the schedule starts: the recipient inherits the sender's start, the original vesting
+   drops by exactly U, and later the two together differ from the unsplit sender by at most one unit *)
+Theorem C07_later_time_agreement_split_before_start :
+  forall start end_ tau t OV U,
+  1 <= OV -> tau <= start -> start < t -> t < end_ -> 1 <= U <= OV ->
+  unlock_ov start end_ tau OV U = OV - U /\
+  let X := vesting_amt start end_ t (OV - U) + vesting_amt start end_ t U - vesting_amt start end_ t OV in
+  - 1 <= X <= 1.
+Proof. exact later_time_agreement_before_start. Qed.
+Print Assumptions C07_later_time_agreement_split_before_start.
 
 (* (5) any amount up to the sender's locked, undelegated coins can be split *)
 Theorem C07_any_amount_up_to_locked_can_be_split :
